@@ -27,8 +27,9 @@
 
 /* ------------------------------------------------------------------ virtual clock */
 static gint64 vnow_us = 1000000000LL;   /* 1000 s */
+static gint64 t0_us = 1000000000LL;
 int clock_gettime (clockid_t id, struct timespec *ts) { ts->tv_sec = vnow_us / 1000000; ts->tv_nsec = (vnow_us % 1000000) * 1000; return 0; }
-static long now_ms (void) { return (long) (vnow_us / 1000 - 1000000); }
+static long now_ms (void) { return (long) ((vnow_us - t0_us) / 1000); }
 
 /* ------------------------------------------------------------------ trace */
 #define T(...) do { fprintf (hc_out, " | %ld ", now_ms ()); fprintf (hc_out, __VA_ARGS__); } while (0)
@@ -445,6 +446,7 @@ static void do_op (char *op)
   else if (!strcmp (a[0], "net")) { p_drop = atof (a[1]); p_dup = atof (a[2]); d_min_us = atol (a[3]) * 1000; d_max_us = atol (a[4]) * 1000; if (n > 5) max_consec_loss = I (5); }
   else if (!strcmp (a[0], "hole")) { /* hole,ipA,ipB,on|off  (directional) */ char k[200]; sprintf (k, "%s>%s", a[1], a[2]); if (!strcmp (a[3], "on")) g_hash_table_insert (blackhole, g_strdup (k), GINT_TO_POINTER (1)); else g_hash_table_remove (blackhole, k); T ("net hole %s %s", k, a[3]); }
   else if (!strcmp (a[0], "server")) { Server *sv2 = &servers[nservers++]; sv2->addr = mkaddr (a[1], I (2)); strncpy (sv2->mode, a[3], 31); sv2->count = 0; T ("net server %s:%s %s", a[1], a[2], a[3]); }
+  else if (!strcmp (a[0], "uptime")) { /* uptime,<seconds> : origin of the monotonic clock (first op of a scenario); beyond 4294967 s the millisecond count no longer fits 32 bits */ vnow_us = atoll (a[1]) * 1000000LL; t0_us = vnow_us; }
   else if (!strcmp (a[0], "srvloss")) srv_loss = I (1);
   else if (!strcmp (a[0], "nat")) { if (n_nat < 8) { nat_priv[n_nat] = mkaddr (a[1], 0); nat_pub[n_nat] = mkaddr (a[2], 0); n_nat++; T ("net nat %s %s", a[1], a[2]); } }
   else if (!strcmp (a[0], "servermode")) { strncpy (servers[I (1)].mode, a[2], 31); }
@@ -549,7 +551,7 @@ static int run_case (char *line)
     consec = g_hash_table_new_full (g_str_hash, g_str_equal, g_free, NULL); resp_tokens = g_hash_table_new_full (g_str_hash, g_str_equal, g_free, NULL); blackhole = g_hash_table_new_full (g_str_hash, g_str_equal, g_free, NULL);
     for (int i = 0; i < n_vif; i++) g_free (vif[i]); n_vif = 0;
     atk_period_us = 0; atk_next_us = G_MAXINT64; reqlog_n = 0; srv_loss = 0; n_nat = 0; for (int i = 0; i < MAXA; i++) { g_free (last_sdp[i]); last_sdp[i] = NULL; } for (int i = 0; i < 4; i++) { g_free (old_ufrag[i]); g_free (old_pwd[i]); old_ufrag[i] = old_pwd[i] = NULL; }
-    p_drop = p_dup = 0; d_min_us = d_max_us = 1000; max_consec_loss = 2; vnow_us = 1000000000LL; dispatch_count = 0; trace_pkts = 1; spinning = 0;
+    p_drop = p_dup = 0; d_min_us = d_max_us = 1000; max_consec_loss = 2; vnow_us = 1000000000LL; t0_us = vnow_us; dispatch_count = 0; trace_pkts = 1; spinning = 0;
     fprintf (hc_out, "%s", id);
     char *op; int aborted = 0;
     while ((op = strtok_r (NULL, " \n", &sv))) {
